@@ -344,14 +344,14 @@ def compare_op(c, name, arg, x, X, f_algopy, f_numpy, view=None, cls=None):
     if not ok:
         c.fail('C13|%s|raises|%s|ndim=%d' % (name, sigarg, X.ndim - 2), case, {'error': err})
         return
-    if not isinstance(y, UTPM) or y.data.shape != ref.shape or not np.array_equal(y.data, ref):
+    if not isinstance(y, UTPM) or y.data.shape != ref.shape or not np.array_equal(y.data, ref, equal_nan=True):
         c.fail('C13|%s|value|%s|ndim=%d' % (name, sigarg, X.ndim - 2), case,
                {'got_shape': list(getattr(getattr(y, 'data', None), 'shape', [])), 'expected_shape': list(ref.shape)})
         return
     if view is not None:
         if np.shares_memory(y.data, x.data) != view:
             c.fail('C13|%s|memory sharing|%s' % (name, sigarg), case, {'expected_view': view})
-    if not np.array_equal(x.data, X):
+    if not np.array_equal(x.data, X, equal_nan=True):
         c.fail('C13|%s|argument modified' % name, case, {})
 
 
@@ -436,6 +436,34 @@ def run_ops(c, tier):
                                        {'got_shape': list(getattr(getattr(z, 'data', None), 'shape', [])), 'dtype': str(getattr(getattr(z, 'data', None), 'dtype', None))})
                         except Exception as ex:
                             c.fail('C13|%s(dtype=UTPM)|raises|shape=%s' % (nm, 'int' if isinstance(shp, int) else ('()' if shp == () else 'tuple')), case, {'error': str(ex)[:120]})
+        # non-finite entries (inf / nan in single coefficient slices): operations that only select or move entries must move
+        # them and nothing else, exactly like NumPy (selection, not multiplication by a mask)
+        for shape in [(3,), (3, 3), (2, 3), (3, 2), (2, 2, 3)]:
+            for pos in range(3):
+                X = fill(shape, D, P, off=pos)
+                flat = X.reshape(D, P, -1)
+                nel = flat.shape[2]
+                flat[D - 1, 0, (pos * 2 + 1) % nel] = np.nan
+                flat[0, P - 1, (pos * 3 + nel - 1) % nel] = np.inf
+                flat[D // 2, P - 1, (pos + nel // 2) % nel] = -np.inf
+                x = UTPM(X.copy())
+                tag = 'nonfinite'
+                compare_op(c, 'transpose', tag, x, X, algopy.transpose, np.transpose, view=True)
+                compare_op(c, 'reshape', tag, x, X, lambda a: algopy.reshape(a, (-1,)), lambda a: np.reshape(a, (-1,)), cls=tag)
+                compare_op(c, 'tile', tag, x, X, lambda a: algopy.tile(a, 2), lambda a: np.tile(a, 2), cls=tag)
+                compare_op(c, 'zeros_like', tag, x, X, algopy.zeros_like, np.zeros_like)
+                compare_op(c, 'getitem', tag, x, X, lambda a: a[..., ::-1], lambda a: a[..., ::-1], cls=tag)
+                compare_op(c, 'neg', tag, x, X, lambda a: -a, lambda a: -a)
+                if len(shape) <= 2:
+                    for k in (-1, 0, 1):
+                        compare_op(c, 'diag', 'k=%d|%s' % (k, tag), x, X, lambda a, k=k: algopy.diag(a, k), lambda a, k=k: np.diag(a, k), cls=tag)
+                if len(shape) == 2:
+                    for k in (-1, 0, 1):
+                        compare_op(c, 'triu', 'k=%d|%s' % (k, tag), x, X, lambda a, k=k: algopy.triu(a, k), lambda a, k=k: np.triu(a, k), cls=tag)
+                        compare_op(c, 'tril', 'k=%d|%s' % (k, tag), x, X, lambda a, k=k: algopy.tril(a, k), lambda a, k=k: np.tril(a, k), cls=tag)
+                    compare_op(c, 'trace', tag, x, X, algopy.trace, np.trace, cls=tag)
+                for ax in range(len(shape)):
+                    compare_op(c, 'sum', 'axis=%d|%s' % (ax, tag), x, X, lambda a, ax=ax: algopy.sum(a, axis=ax), lambda a, ax=ax: np.sum(a, axis=ax), cls=tag)
         # symvec / vecsym (slice-wise definition)
         for N in (1, 2, 3, 4):
             X = fill((N, N), D, P)
